@@ -133,7 +133,23 @@ class H0:
     pass
 
 
-PLAIN = {c.__name__: c for c in (P0, P1, P2, P3, P4, P5, P6, P7, P8, H0)}
+from pyworkers.remote_pickle import SupportRemoteGetState as _Marker
+
+
+class PM0(_Marker):
+    """derives from the marker base class but has no remote-aware __getstate__: not opt-in, pickled the standard way"""
+    pass
+
+
+class PM1(_Marker):
+    def __getstate__(self):
+        LOG.append(('getstate', id(self), type(self).__name__, None))
+        d = dict(self.__dict__)
+        d['_gs'] = 'plain-marker-derived'
+        return d
+
+
+PLAIN = {c.__name__: c for c in (P0, P1, P2, P3, P4, P5, P6, P7, P8, H0, PM0, PM1)}
 
 
 # ---------------------------------------------------------------------------
